@@ -146,13 +146,21 @@ func (gr GithubReporter) Summary(ctx context.Context, _ any, s Summary, errs []e
 }
 
 func (gr GithubReporter) List(ctx context.Context, _ any) ([]ExistingComment, error) {
-	reqCtx, cancel := gr.reqContext(ctx)
-	defer cancel()
-
 	slog.Debug("Getting the list of pull request comments", slog.Int("pr", gr.prNum))
-	existing, _, err := gr.client.PullRequests.ListComments(reqCtx, gr.owner, gr.repo, gr.prNum, nil)
-	if err != nil {
-		return nil, fmt.Errorf("failed to list pull request reviews: %w", err)
+	var existing []*github.PullRequestComment
+	var opts *github.PullRequestListCommentsOptions
+	for {
+		reqCtx, cancel := gr.reqContext(ctx)
+		page, resp, err := gr.client.PullRequests.ListComments(reqCtx, gr.owner, gr.repo, gr.prNum, opts)
+		cancel()
+		if err != nil {
+			return nil, fmt.Errorf("failed to list pull request reviews: %w", err)
+		}
+		existing = append(existing, page...)
+		if resp == nil || resp.NextPage == 0 {
+			break
+		}
+		opts = &github.PullRequestListCommentsOptions{ListOptions: github.ListOptions{Page: resp.NextPage}} // nolint: exhaustruct
 	}
 
 	comments := make([]ExistingComment, 0, len(existing))
@@ -304,13 +312,21 @@ func (gr GithubReporter) createReview(ctx context.Context, summary Summary) erro
 }
 
 func (gr GithubReporter) listPRFiles(ctx context.Context) ([]*github.CommitFile, error) {
-	reqCtx, cancel := gr.reqContext(ctx)
-	defer cancel()
-
 	slog.Debug("Getting the list of modified files", slog.Int("pr", gr.prNum))
-	files, _, err := gr.client.PullRequests.ListFiles(reqCtx, gr.owner, gr.repo, gr.prNum, nil)
-	if err != nil {
-		return nil, fmt.Errorf("failed to list pull request files: %w", err)
+	var files []*github.CommitFile
+	var opts *github.ListOptions
+	for {
+		reqCtx, cancel := gr.reqContext(ctx)
+		page, resp, err := gr.client.PullRequests.ListFiles(reqCtx, gr.owner, gr.repo, gr.prNum, opts)
+		cancel()
+		if err != nil {
+			return nil, fmt.Errorf("failed to list pull request files: %w", err)
+		}
+		files = append(files, page...)
+		if resp == nil || resp.NextPage == 0 {
+			break
+		}
+		opts = &github.ListOptions{Page: resp.NextPage} // nolint: exhaustruct
 	}
 	return files, nil
 }
